@@ -135,6 +135,9 @@ def plans(prop, tier):
             if k != 'thread':
                 P.append((k, True, 'ret', 2, ('pause',), None, 'slowarg'))      # landing while the child rebuilds an argument (user code)
         P.append(('thread', False, 'ret', 0, ('term_after_finish',), None, None))
+        for k in kinds:
+            for items in (0, 2):
+                P.append((k, True, 'ret', items, ('term_idle',), None, None))    # an idle persistent worker blocked in its receive, patient caller
     elif prop == 'C06':
         for k in kinds:
             for items in ((0, 2) if tier == 'quick' else (0, 1, 2, 3, 5)):
@@ -224,7 +227,7 @@ def run(prop, tier, replay=None):
                 if cons and tier == 'quick':
                     pts = pts[::2]
                 extra = {}
-                if f == 'term_after_finish':
+                if f in ('term_after_finish', 'term_idle'):
                     pts = [0]
                 if obsmode == 'double':
                     extra = {'double': True}
@@ -307,6 +310,7 @@ def run(prop, tier, replay=None):
     checked, unmapped, dr = conformance(results, allowed, prop == 'C16')
     ev.cov['conformance_checked'] = checked
     ev.cov['conformance_unmapped'] = unmapped
+    ev.cov['conformance_unmapped_where'] = sorted(set(UNMAPPED))[:12]
     ev.cov['conformance_drift'] = len(dr)
     drift = dr[:5] + (['... %d more' % (len(dr) - 5)] if len(dr) > 5 else []) + unrepro[:5]
     ev.cov['violations_not_reproduced'] = len(unrepro)
@@ -450,6 +454,9 @@ def real_triple(r):
     return (seen, o['us_end'], o['stream']['end'])
 
 
+UNMAPPED = []
+
+
 def conformance(results, allowed, stateful):
     """-> (checked, drift list)"""
     checked, unmapped, drift = 0, 0, []
@@ -463,6 +470,14 @@ def conformance(results, allowed, stateful):
             al |= allowed.get((s['kind'], s['persistent'], s['ending'], fault, lab), set())
         if not al:
             unmapped += 1
+            w = r.get('where') or {}
+            an = '_run_backend' if s['kind'] == 'remote' else '_run'
+            aline = next((f[2] for f in reversed(w.get('stack') or []) if f[1] == an), None)
+            region = anchor_regions(s['kind']).get(aline, 'unknown') if aline is not None else 'none'
+            UNMAPPED.append('%s%s %s:%s region=%s' % ('persistent ' if s['persistent'] == 'T' else '', s['kind'], s['file'], s['func'], region))
+            if region == 'pre' and s['fault'] == 'pause':
+                drift.append('%s%s: the request landed in the run loop OUTSIDE its try statement (%s:%s line %s, after the constructor returned): '
+                             'OneShot.tla has no such label - the code was restructured' % ('persistent ' if s['persistent'] == 'T' else '', s['kind'], s['file'], s['func'], s['line']))
             continue
         t = real_triple(r)
         if t is None:
